@@ -2,18 +2,18 @@ CONSTANTS
   Types <- T2
   TypeSeq <- T2s
   Owners <- O2
-  SubOpts <- OptPlain
+  SubOpts <- OptOnce
   AutoOpts <- AutoBulk
   RVs = {"none"}
   UnsubModes = {}
   BulkModes = {"handler", "eid", "pair"}
-  BulkLens = {2, 3}
+  BulkLens = {2}
   WithClear = TRUE
   Forms = {"inst"}
   NoErrs = {FALSE}
   RaiseTypes <- TAB
   SubTypes <- TAB
-  MaxSubs = 2
+  MaxSubs = 3
   MaxRaises = 1
   MaxUnsubs = 1
   MaxDepth = 1
